@@ -419,10 +419,88 @@ def forgetTransaction (ag : Agent) (id : Bytes) : Bool × Agent :=
 
 def STUN_SEND_METHOD : Nat := STUN_SEND
 
+/-- long-term key preparation of `stun_agent_finish_message` (:597-618): (skip, message, md5) -/
+def finishPrep (H : Hashes) (c : Cfg) (msg : Msg) (k : Bytes) : M (Bool × Msg × Bytes) :=
+  let a := some c
+  if msg.ltValid then .ok (false, msg, msg.ltKey)
+  else if c.has STUN_AGENT_USAGE_LONG_TERM_CREDENTIALS then
+    match find a msg.buf tREALM, find a msg.buf tUSERNAME with
+    | .ok (some (ro, rl)), .ok (some (uo, ul)) =>
+      match rdBytes msg.buf ro rl.toNat, rdBytes msg.buf uo ul.toNat with
+      | .ok realm, .ok uname =>
+        let md5 := hashCreds H realm uname k
+        .ok (false, { msg with ltKey := md5, ltValid := true }, md5)
+      | .error e, _ => .error e
+      | _, .error e => .error e
+    | .error e, _ => .error e
+    | _, .error e => .error e
+    | _, _ => .ok (true, msg, #[])
+  else .ok (false, msg, #[])
+
+/-- the HMAC key: the MD5 credential hash under long-term credentials, else the key itself -/
+def finishMacKey (c : Cfg) (k md5 : Bytes) : Bytes :=
+  if c.has STUN_AGENT_USAGE_LONG_TERM_CREDENTIALS then md5 else k
+
+/-- the MAC's length field is `message length - minus`: 20, or for MS-ICE2 with fingerprints 12
+    (the 8 bytes of the FINGERPRINT still to be appended are counted) -/
+def finishMinus (c : Cfg) : UInt16 :=
+  if c.compat == STUN_COMPATIBILITY_MSICE2 && c.has STUN_AGENT_USAGE_USE_FINGERPRINT then 12 else 20
+
+/-- `if (msg->key != NULL) { key = msg->key; … }` -/
+def pickKey (msgKey keyArg : Option Bytes) : Option Bytes :=
+  match msgKey with | some k => some k | none => keyArg
+
+/-- append MESSAGE-INTEGRITY (:622-664) to `m` and fill it in: `none` = append returned NULL -/
+def finishAppendMI (H : Hashes) (c : Cfg) (m : Msg) (k md5 : Bytes) : M (Option Msg) :=
+  match append (some c) m.buf tMI 20 with
+  | .error e => .error e
+  | .ok none => .ok none
+  | .ok (some (b, ptr)) =>
+    match messageLength b with
+    | .error e => .error e
+    | .ok mlen =>
+      match stunSha1 H b mlen.toNat (mlen - finishMinus c) (finishMacKey c k md5) (macPadOf c) with
+      | .error e => .error e
+      | .ok sha =>
+        match wrBytes b ptr sha with
+        | .error e => .error e
+        | .ok b => .ok (some { m with buf := b })
+
+/-- the MESSAGE-INTEGRITY part of finish: (false, m) = return 0 -/
+def finishMI (H : Hashes) (c : Cfg) (msg : Msg) (key : Option Bytes) : M (Bool × Msg) :=
+  match key with
+  | none => .ok (true, msg)
+  | some k =>
+    match finishPrep H c msg k with
+    | .error e => .error e
+    | .ok (true, m, _) => .ok (true, m)      -- long-term credentials without REALM / USERNAME: no M-I
+    | .ok (false, m, md5) =>
+      match finishAppendMI H c m k md5 with
+      | .error e => .error e
+      | .ok none => .ok (false, m)
+      | .ok (some m') => .ok (true, m')
+
+/-- the FINGERPRINT part of finish (:667-679): `none` = return 0 -/
+def finishFPR (c : Cfg) (m : Msg) : M (Option Msg) :=
+  if isRfc5389ish c && c.has STUN_AGENT_USAGE_USE_FINGERPRINT then
+    match append (some c) m.buf tFPR 4 with
+    | .error e => .error e
+    | .ok none => .ok none
+    | .ok (some (b, ptr)) =>
+      match messageLength b with
+      | .error e => .error e
+      | .ok mlen =>
+        match fingerprint b mlen.toNat false with
+        | .error e => .error e
+        | .ok fpr =>
+          match wrBytes b ptr (be32Bytes fpr) with
+          | .error e => .error e
+          | .ok b => .ok (some { m with buf := b })
+  else .ok (some m)
+
 /-- `stun_agent_finish_message (agent, msg, key, key_len)` : (return value, agent, message) -/
 def finishMessage (H : Hashes) (ag : Agent) (msg : Msg) (keyArg : Option Bytes) : M (Nat × Agent × Msg) :=
   let c := ag.cfg
-  let a := some c
   match getClass msg.buf, getMethod msg.buf with
   | .ok cls, .ok method =>
     let remember := cls == STUN_REQUEST && !(c.compat == STUN_COMPATIBILITY_OC2007 && method == STUN_SEND_METHOD)
@@ -431,70 +509,12 @@ def finishMessage (H : Hashes) (ag : Agent) (msg : Msg) (keyArg : Option Bytes) 
     match slot with
     | none => .ok (0, ag, msg)               -- "Saved IDs full"
     | some savedIdx =>
-      let key := match msg.key with | some k => some k | none => keyArg
-      -- MESSAGE-INTEGRITY
-      let miR : M (Bool × Msg) :=              -- (false, m) = return 0
-        match key with
-        | none => .ok (true, msg)
-        | some k =>
-          let prepR : M (Bool × Msg × Bytes) :=     -- (skip, msg, md5)
-            if msg.ltValid then .ok (false, msg, msg.ltKey)
-            else if c.has STUN_AGENT_USAGE_LONG_TERM_CREDENTIALS then
-              match find a msg.buf tREALM, find a msg.buf tUSERNAME with
-              | .ok (some (ro, rl)), .ok (some (uo, ul)) =>
-                match rdBytes msg.buf ro rl.toNat, rdBytes msg.buf uo ul.toNat with
-                | .ok realm, .ok uname =>
-                  let md5 := hashCreds H realm uname k
-                  .ok (false, { msg with ltKey := md5, ltValid := true }, md5)
-                | .error e, _ => .error e
-                | _, .error e => .error e
-              | .error e, _ => .error e
-              | _, .error e => .error e
-              | _, _ => .ok (true, msg, #[])
-            else .ok (false, msg, #[])
-          match prepR with
-          | .error e => .error e
-          | .ok (true, m, _) => .ok (true, m)
-          | .ok (false, m, md5) =>
-            match append a m.buf tMI 20 with
-            | .error e => .error e
-            | .ok none => .ok (false, m)
-            | .ok (some (b, ptr)) =>
-              match messageLength b with
-              | .error e => .error e
-              | .ok mlen =>
-                let macKey := if c.has STUN_AGENT_USAGE_LONG_TERM_CREDENTIALS then md5 else k
-                let minus : UInt16 :=
-                  if c.compat == STUN_COMPATIBILITY_MSICE2 && c.has STUN_AGENT_USAGE_USE_FINGERPRINT then 12 else 20
-                let pad := isRfc3489ish c || c.compat == STUN_COMPATIBILITY_MSICE2
-                match stunSha1 H b mlen.toNat (mlen - minus) macKey pad with
-                | .error e => .error e
-                | .ok sha =>
-                  match wrBytes b ptr sha with
-                  | .error e => .error e
-                  | .ok b => .ok (true, { m with buf := b })
-      match miR with
+      let key := pickKey msg.key keyArg
+      match finishMI H c msg key with
       | .error e => .error e
       | .ok (false, m) => .ok (0, ag, m)
       | .ok (true, m) =>
-        -- FINGERPRINT
-        let fpR : M (Option Msg) :=
-          if isRfc5389ish c && c.has STUN_AGENT_USAGE_USE_FINGERPRINT then
-            match append a m.buf tFPR 4 with
-            | .error e => .error e
-            | .ok none => .ok none
-            | .ok (some (b, ptr)) =>
-              match messageLength b with
-              | .error e => .error e
-              | .ok mlen =>
-                match fingerprint b mlen.toNat false with
-                | .error e => .error e
-                | .ok fpr =>
-                  match wrBytes b ptr (be32Bytes fpr) with
-                  | .error e => .error e
-                  | .ok b => .ok (some { m with buf := b })
-          else .ok (some m)
-        match fpR with
+        match finishFPR c m with
         | .error e => .error e
         | .ok none => .ok (0, ag, m)        -- M-I already appended, buffer keeps it
         | .ok (some m) =>
